@@ -81,7 +81,7 @@ func (m *monC08) Step(f *Flow) {
 			w.Probe("request_success")
 		}
 	}
-	for _, pb := range f.Pubs {
+	for _, pb := range f.Active {
 		if pb.Ret == 0 || m.pubDone[pb.Idx] || pb.Zombie || pb.Gen != w.Gen {
 			continue
 		}
@@ -98,10 +98,10 @@ func (m *monC08) Final(f *Flow) { m.Step(f) }
 
 type monC05 struct {
 	NopMonitor
-	firstPub   [3][]*Pub       // per level: order of first complete appearance
-	seenOnConn map[string]int  // topic -> first connection id (this incarnation) with the complete packet
-	seenGen    map[string]int  // topic -> generation of that connection
-	relSeen    map[int]int     // publish index -> first connection id with its PUBREL
+	firstPub   [3][]*Pub      // per level: order of first complete appearance
+	seenOnConn map[string]int // topic -> first connection id (this incarnation) with the complete packet
+	seenGen    map[string]int // topic -> generation of that connection
+	relSeen    map[int]int    // publish index -> first connection id with its PUBREL
 	lastRelGen int
 	relOnConn  map[[2]int]bool // (conn id, PUBREL id) seen
 	lastRelSeq int
@@ -222,22 +222,22 @@ func (m *monC05) checkResendOrder(f *Flow, c *Conn, pb *Pub, p *WirePkt) {
 }
 
 func (m *monC05) Step(f *Flow) {
-	// exchange channels close in acceptance order per level
+	// exchange channels close in acceptance order per level (publishes
+	// retired from the active list are closed)
 	w := f.W
-	for lvl := 1; lvl <= 2; lvl++ {
-		open := -1
-		for i, pb := range m.firstPub[lvl] {
-			_ = i
-			if pb.Gen != w.Gen || pb.Zombie {
-				continue
+	var open [3]int
+	open[1], open[2] = -1, -1
+	for _, pb := range f.Active {
+		if pb.Gen != w.Gen || pb.Zombie || !pb.Accepted() || pb.FirstWire == 0 {
+			continue
+		}
+		lvl := pb.QoS
+		if !pb.ExClosed {
+			if open[lvl] < 0 {
+				open[lvl] = pb.Idx
 			}
-			if !pb.ExClosed {
-				if open < 0 {
-					open = pb.Idx
-				}
-			} else if open >= 0 {
-				w.Violate("C05", "completion-order", fmt.Sprintf("q%d", lvl), "exchange of publish #%d closed while the earlier publish #%d of the same level is still open", pb.Idx, open)
-			}
+		} else if open[lvl] >= 0 && f.Pubs[open[lvl]].ID != 0 && pb.ID != 0 && ((seqOf(pb.ID)-seqOf(f.Pubs[open[lvl]].ID))&0x3fff) < 0x2000 {
+			w.Violate("C05", "completion-order", fmt.Sprintf("q%d", lvl), "exchange of publish #%d closed while the earlier publish #%d of the same level is still open", pb.Idx, open[lvl])
 		}
 	}
 }
@@ -253,7 +253,11 @@ func (m *monC05) Final(f *Flow) {
 			}
 		}
 		for i := 0; i < len(acc); i++ {
-			for j := 0; j < len(acc); j++ {
+			// neighbours only: identifiers are compared modulo 2^14
+			for j := i - 300; j < i+300 && j < len(acc); j++ {
+				if j < 0 {
+					continue
+				}
 				a, b := acc[i], acc[j]
 				if a.Gen != b.Gen {
 					continue
@@ -484,14 +488,11 @@ func (m *monC17) Wire(f *Flow, c *Conn, p *WirePkt) {
 		if pb == nil {
 			return
 		}
-		for _, o := range f.Pubs {
-			if o == pb || o.ID != p.ID || o.ID == 0 || !o.SavedAny {
+		for o := pb.PrevHolder; o != nil && o != pb; o = nil {
+			if !o.Accepted() || !o.SavedAny {
 				continue
 			}
-			if !o.Accepted() {
-				continue
-			}
-			if !f.finalAckHanded(o) && o.FirstWire != 0 {
+			if !f.finalAckHanded(o) && o.FirstWire != 0 && !o.Deleted {
 				w.Violate("C17", "identifier-collision", fmt.Sprintf("q%d", p.QoS), "PUBLISH %#04x for publish #%d while publish #%d holds the same identifier unfinished", p.ID, pb.Idx, o.Idx)
 			}
 		}
@@ -507,7 +508,7 @@ func (m *monC17) Wire(f *Flow, c *Conn, p *WirePkt) {
 				w.Violate("C17", "identifier-collision", "request", "%s %#04x while pending request #%d holds the same identifier", typeNames[p.Type], p.ID, r.Idx)
 			}
 		}
-		for _, o := range f.Pubs {
+		for o := f.byID[p.ID]; o != nil; o = nil {
 			if o.ID == p.ID && o.Accepted() && !f.finalAckHanded(o) {
 				w.Violate("C17", "identifier-shared", "request-vs-publish", "%s %#04x shares its identifier with unfinished publish #%d", typeNames[p.Type], p.ID, o.Idx)
 			}
@@ -561,7 +562,7 @@ func (m *monC17) Step(f *Flow) {
 	// lower bound of in-flight transfers: accepted in this incarnation (or
 	// resumed, see restart families) and exchange not closed
 	var inflight [3]int
-	for _, pb := range f.Pubs {
+	for _, pb := range f.Active {
 		if pb.Accepted() && !pb.ExClosed && pb.Gen == w.Gen {
 			inflight[pb.QoS]++
 		}
@@ -571,7 +572,7 @@ func (m *monC17) Step(f *Flow) {
 			w.Violate("C17", "over-maximum", fmt.Sprintf("q%d", lvl), "%d transfers in flight at level %d, the configured maximum is %d", inflight[lvl], lvl, max[lvl])
 		}
 	}
-	for _, pb := range f.Pubs {
+	for _, pb := range f.Active {
 		if pb.Ret == 0 || m.done[pb.Idx] || pb.Zombie || pb.Gen != w.Gen {
 			continue
 		}
@@ -585,7 +586,7 @@ func (m *monC17) Step(f *Flow) {
 		w.Probe("errmax_returned")
 		// upper bound of transfers alive at any time during the call
 		alive := f.Resumed[pb.QoS]
-		for _, o := range f.Pubs {
+		for _, o := range f.Active {
 			if o == pb || o.QoS != pb.QoS || o.Gen != pb.Gen || o.Invoke > pb.Ret {
 				continue
 			}
